@@ -5,6 +5,7 @@ import Req.Pool.TlsFamily
 import Req.Pool.TlsPaths
 import Req.Pool.ProxyDispatch
 import Req.Pool.AltSvcState
+import Req.Pool.AltSvcClient
 /-! Driver lanes of C12.
 
 * `c12route <force> <h3> <allowHTTP> <dialTLS> <handshake> <protos> <scheme> <reqH1> <alpn>
@@ -298,6 +299,18 @@ def laneAlpn : List String → String
     | _, _, _, _, _, _ => "bad-op"
   | _ => "bad-op"
 
+def pSetting : String → Option Setting
+  | "f1" => some .forceH1
+  | "f2" => some .forceH2
+  | "f3" => some .forceH3
+  | "uf" => some .unforce
+  | "e3" => some .enableH3
+  | "d3" => some .disableH3
+  | "eh" => some .enableH2C
+  | "dh" => some .disableH2C
+  | "cl" => some .clone
+  | _ => none
+
 section altsm
 open Req.Pool.AltSvc
 
@@ -323,38 +336,28 @@ def sPending (s : State) (o : Origin) : String :=
 
 /-- `c12altsm <events>` → per event the disposition of a request (`A1`/`A0` = through the Alt-Svc
 shortcut, response / error; `N` = normal dispatch) and the pending entry of the event's origin
-afterwards (`-` | `<idx>r` ready | `<idx>w` waiting), from the empty state
-(`Req.Pool.AltSvc.step`). -/
+afterwards (`-` | `<idx>r` ready | `<idx>w` waiting); `s:<setter>` events (tokens of `c12set`)
+change the protocol settings in between; from `C()` (`Req.Pool.AltSvc.cstep`). -/
 def laneAltSm : List String → String
   | [evs] =>
-    match (evs.splitOn ",").mapM pAltEvent with
+    let pEv (t : String) : Option CEvent :=
+      if t.startsWith "s:" then (pSetting (t.drop 2).toString).map .setting else (pAltEvent t).map .alt
+    match (evs.splitOn ",").mapM pEv with
     | none => "bad-op"
     | some es =>
-      let (_, out) := es.foldl (fun (acc : State × List String) e =>
-        let (s', served) := step acc.1 e
-        let o := match e with | .header o _ _ => o | .dialed o _ => o | .request o _ _ => o
+      let (_, out) := es.foldl (fun (acc : Client × List String) e =>
+        let (c', served) := cstep true acc.1 e
         let tag := match e, served with
-          | .header .., _ => "h"
-          | .dialed .., _ => "d"
-          | .request .., some (.alt true) => "rA1"
-          | .request .., some (.alt false) => "rA0"
-          | .request .., _ => "rN"
-        (s', acc.2 ++ [tag ++ sPending s' o])) (State.empty, [])
+          | .setting _, _ => "s"
+          | .alt (.header o ..), _ => "h" ++ sPending c'.alt o
+          | .alt (.dialed o ..), _ => "d" ++ sPending c'.alt o
+          | .alt (.request o ..), some (.alt true) => "rA1" ++ sPending c'.alt o
+          | .alt (.request o ..), some (.alt false) => "rA0" ++ sPending c'.alt o
+          | .alt (.request o ..), _ => "rN" ++ sPending c'.alt o
+        (c', acc.2 ++ [tag])) (Client.init, [])
       ",".intercalate out
   | _ => "bad-op"
 end altsm
-
-def pSetting : String → Option Setting
-  | "f1" => some .forceH1
-  | "f2" => some .forceH2
-  | "f3" => some .forceH3
-  | "uf" => some .unforce
-  | "e3" => some .enableH3
-  | "d3" => some .disableH3
-  | "eh" => some .enableH2C
-  | "dh" => some .disableH2C
-  | "cl" => some .clone
-  | _ => none
 
 /-- `c12set <supported> <settings>` → `force=… h3=… allow=… dial=…` after the setters, from `T()`
 (`allow=?` once a clone occurred: whether Clone carries `t2.AllowHTTP` is C19's subject). -/
